@@ -22,7 +22,7 @@ import playback.tape_recorder as tr_module
 
 from . import opclasses
 from .concretise import Concretisation, same_value
-from .values import EXC, ScriptedInterrupt, BadKey, ScriptedError1, ScriptedError2
+from .values import EXC, ScriptedInterrupt, BadKey, ScriptedError1, ScriptedError2, UnsavableResult
 
 FALSY = [0, '', [], {}, False, 0.0, ()]
 INTERRUPTS = [ScriptedInterrupt, SystemExit, KeyboardInterrupt, ScriptedInterrupt, GeneratorExit]
@@ -380,7 +380,7 @@ def build_class(recorder, ctx, world, cls_params, has_extractor, opt_sets, class
         if t == 'exc':
             ctx.end_object = EXC[v]('scripted %s from operation' % v)
             raise ctx.end_object
-        ctx.end_object = ctx.result_object(v)
+        ctx.end_object = UnsavableResult(v) if getattr(ctx, 'poison_end', False) else ctx.result_object(v)
         return ctx.end_object
 
     def call_input(inst, alias, argtoken, st):
@@ -751,6 +751,7 @@ class Driver(object):
                 st['res'] = tuple(st['res'])
                 steps.append(st)
                 step_idx.append(x)
+        returns = end is not None and end[0] == 'val'
         if end is None:
             end = ('val', 'v1')  # unreachable: the operation is cut short by an interrupt in a body
         if self.vary_threads:
@@ -763,7 +764,12 @@ class Driver(object):
         ctx.end = end
         ctx.end_object = None
         ctx.extractor = fin['extractor'] or 'none'
-        self.spy.fail_save = bool(fin['saveFails'])
+        # a failing save is either injected in front of the cassette, or (half of the behaviours, where the operation
+        # returns and its output is captured by reference) provoked *inside* the real cassette's save by a result that
+        # cannot be serialised
+        ctx.poison_end = bool(fin['saveFails']) and returns and not self.classes[enter['cls']].get('copyOn') \
+            and (self.beh_hash // 8) % 2 == 0
+        self.spy.fail_save = bool(fin['saveFails']) and not ctx.poison_end
         rate = RATES[self.classes[enter['cls']]['rate']]
         ScriptedRandom.queue = []
         if fin['draw'] == 'low':
